@@ -6,7 +6,7 @@
    this is libm rounding the real-number model cannot exhibit. *)
 From Coq Require Import Arith List Reals QArith Qcanon.
 From GPV Require Import Base.LinAlg Base.Exec Base.Expr Models.C17_constraints
-  Proofs.C17_constraints.
+  Proofs.C17_constraints Proofs.C17_extra.
 Import ListNotations.
 
 (* range: for EVERY real raw value the transformed value is strictly inside the bounds
@@ -41,20 +41,14 @@ Theorem c17_greater_than_bijection :
     /\ inverse_R (CGreater lb) (transform_R (CGreater lb) x) = x
     /\ (forall y, (q lb < y)%R -> transform_R (CGreater lb) (inverse_R (CGreater lb) y) = y)
     /\ (forall x', (x < x')%R -> (transform_R (CGreater lb) x < transform_R (CGreater lb) x')%R).
-Proof.
-  intros lb x. repeat split.
-  - exact (transform_range (CGreater lb) x I).
-  - exact (inverse_transform_id (CGreater lb) x I).
-  - intros y Hy. exact (transform_inverse_id (CGreater lb) y I Hy).
-  - intros x' H. exact (transform_increasing (CGreater lb) x x' I H).
-Qed.
+Proof. exact greater_than_bijection. Qed.
 Print Assumptions c17_greater_than_bijection.
 
 (* the executable (Expr) model denotes the real-number model *)
 Theorem c17_model_denotes :
   forall (c : cons) (x : expr),
     den (transform_e c x) = transform_R c (den x) /\ den (inverse_e c x) = inverse_R c (den x).
-Proof. intros c x. split; [apply den_transform|apply den_inverse]. Qed.
+Proof. exact model_denotes. Qed.
 Print Assumptions c17_model_denotes.
 
 (* history invariant: after ANY list of set / initialize / step operations, started anywhere,
@@ -135,13 +129,46 @@ Theorem c17_smoothedbox_prior :
 Proof. exact lp_smoothedbox_correct. Qed.
 Print Assumptions c17_smoothedbox_prior.
 
+(* HorseshoePrior: log of the average of the two documented bounds lb, ub with K = 1/sqrt(2 pi^3) *)
+Theorem c17_horseshoe_prior :
+  forall s x : expr,
+    den (lp_horseshoe s x) = ln ((horseshoe_lb (den s) (den x) + horseshoe_ub (den s) (den x)) / 2).
+Proof. exact lp_horseshoe_correct. Qed.
+Print Assumptions c17_horseshoe_prior.
+
+(* SmoothedBoxPrior is flat on the box [a, b] *)
+Theorem c17_smoothedbox_plateau :
+  forall a b s x x' : expr, (0 < den s)%R -> (den a < den b)%R ->
+    (den a <= den x <= den b)%R -> (den a <= den x' <= den b)%R ->
+    den (lp_smoothedbox a b s x) = den (lp_smoothedbox a b s x').
+Proof. exact lp_smoothedbox_plateau. Qed.
+Print Assumptions c17_smoothedbox_plateau.
+
+(* normalisation where it is elementary: exp(UniformPrior.log_prob) integrates to 1 over [a, b] *)
+Theorem c17_uniform_prior_normalised :
+  forall a b : expr, (den a < den b)%R ->
+    @Coquelicot.RInt.RInt Coquelicot.Hierarchy.R_CompleteNormedModule
+      (fun _ => exp (den (lp_uniform a b))) (den a) (den b) = 1%R.
+Proof. exact uniform_normalised. Qed.
+Print Assumptions c17_uniform_prior_normalised.
+
+(* transform is injective; raw initialisation and optimiser steps read the transform of the new raw value *)
+Theorem c17_transform_injective :
+  forall (c : cons) (x x' : R), wf c -> transform_R c x = transform_R c x' -> x = x'.
+Proof. exact transform_injective. Qed.
+Print Assumptions c17_transform_injective.
+
+Theorem c17_raw_ops_read :
+  forall (c : cons) (s : cell expr) (r d : expr),
+    readR c (step_e c s (InitRaw r)) = transform_R c (den r) /\
+    readR c (step_e c s (Step d)) = transform_R c (den (fst s) + den d)%R.
+Proof. exact raw_ops_read. Qed.
+Print Assumptions c17_raw_ops_read.
+
 (* non-vacuity: a well-formed interval, an interior value, a non-empty history *)
 Example ex_c17_interval_history :
   wf (CInterval (qc 1 10) (qc 5 2)) /\ interior_q (CInterval (qc 1 10) (qc 5 2)) (qc 3 2) = true /\
   length (trace_e (CInterval (qc 1 10) (qc 5 2)) (EConst 0%Qc, O)
             [Set_ (qc 3 2); Step (EConst (qc (-7) 1)); Set_ (qc 3 1); InitRaw (EConst (qc 40 1))]) = 4%nat.
-Proof.
-  split; [|split; reflexivity].
-  apply (proj1 (Qc_ltb_spec (qc 1 10) (qc 5 2))). reflexivity.
-Qed.
+Proof. exact ex_interval_history. Qed.
 Print Assumptions ex_c17_interval_history.
